@@ -15,6 +15,9 @@ pub(crate) struct LoopState {
     pub(crate) current_recursion_jump: Option<(u32, bool)>,
     pub(crate) object: Arc<Loop>,
 
+    // did the loop produce at least one item?
+    iterated: bool,
+
     // Depending on if adjacent_loop_items is enabled or not, the iterator
     // is stored either on the loop state or in the loop object.  This is
     // done because when the feature is disabled, we can avoid using a mutex.
@@ -41,6 +44,7 @@ impl LoopState {
         LoopState {
             with_loop_var,
             current_recursion_jump,
+            iterated: false,
             object: Arc::new(Loop {
                 idx: AtomicUsize::new(!0usize),
                 len,
@@ -56,19 +60,19 @@ impl LoopState {
     }
 
     pub fn did_not_iterate(&self) -> bool {
-        self.object.idx.load(Ordering::Relaxed) == 0
+        // the index alone cannot tell: it is also 0 when the loop is left
+        // with `break` during its first iteration.
+        !self.iterated
     }
 
     pub fn next(&mut self) -> Option<Value> {
         self.object.idx.fetch_add(1, Ordering::Relaxed);
         #[cfg(feature = "adjacent_loop_items")]
-        {
-            self.object.iter.lock().unwrap().next()
-        }
+        let rv = self.object.iter.lock().unwrap().next();
         #[cfg(not(feature = "adjacent_loop_items"))]
-        {
-            self.iter.next()
-        }
+        let rv = self.iter.next();
+        self.iterated |= rv.is_some();
+        rv
     }
 }
 
